@@ -169,8 +169,9 @@ def dump_instance(args):
         rec['id'] = code.id
         rec['label'] = code.label
         rec['params'] = {k: (int(v) if v is not None else None) for k, v in code.params.items()}
-        qc = [tuple(int(c) for c in q) for q in code.qubit_coordinates]
-        sc = [tuple(int(c) for c in s) for s in code.stabilizer_coordinates]
+        _cv = lambda c: int(c) if float(c).is_integer() else float(c)      # whole numbers as ints, anything else as it is
+        qc = [tuple(_cv(c) for c in q) for q in code.qubit_coordinates]
+        sc = [tuple(_cv(c) for c in s) for s in code.stabilizer_coordinates]
         rec['qubits'] = [list(q) for q in qc]
         rec['stab_coords'] = [list(s) for s in sc]
         qindex = {q: i for i, q in enumerate(qc)}
